@@ -235,14 +235,14 @@ Definition wres (role : role) (s : ws_state) (r : res unit) (s' : ws_state) (a' 
 
 Lemma write_none_soft x w r x' w' :
   soft w -> add_unmasked x -> write_ x None w = (r, x', w') ->
-  exists o a nf, x' = upd x o (x_state x') a (x_unflushed x) /\ wext w w' nf /\
+  exists o a u nf, x' = upd x o (x_state x') a u /\ wext w w' nf /\
     slot (x_role x) (x_additional x) a nf /\
     wres (x_role x) (x_state x) (err_of r) (x_state x') a o.
 Proof.
   intros HS HU. rewrite CloseP.write__eq. cbv beta iota zeta.
   (* the additional slot *)
   assert (HA : forall r1 x1 w1, write_add x w = (r1, x1, w1) ->
-            exists o a nf, x1 = upd x o (x_state x) a (x_unflushed x) /\ wext w w1 nf /\
+            exists o a u nf, x1 = upd x o (x_state x) a u /\ wext w w1 nf /\
               slot (x_role x) (x_additional x) a nf /\
               ((exists b, r1 = ROk b) \/ r1 = RErr wb)).
   { intros r1 x1 w1. unfold write_add. destruct (x_additional x) as [msg|] eqn:Ea.
@@ -253,39 +253,45 @@ Proof.
       pose proof (sent_frame_unmasked (x_role x) w msg HU) as HU1.
       destruct EB as [[-> [-> Hw]]|[o [-> [Hw Hr]]]].
       + intros H. inj3 H. unfold set_additional. cbn [x_additional set_additional_raw].
-        exists (c_out (x_codec x)), (Some (sent_frame (x_role x) w msg)), []. splits; auto.
+        exists (c_out (x_codec x)), (Some (sent_frame (x_role x) w msg)). eexists. exists []. splits.
         * destruct x as [ro [ci co cm cw ch] st inc ad un cf]. reflexivity.
+        * exact Hw.
         * right. exists msg, (sent_frame (x_role x) w msg). splits; auto.
         * left. eauto.
       + cbn [x_state x_additional x_unflushed set_additional_raw].
         destruct Hr as [->|[-> Ho]]; intros H; inj3 H.
-        * exists o, None, [sent_frame (x_role x) w msg]. splits; auto.
+        * exists o, None. eexists. exists [sent_frame (x_role x) w msg]. splits.
+          -- reflexivity.
+          -- exact Hw.
           -- right. exists msg, (sent_frame (x_role x) w msg). splits; auto.
           -- left. eauto.
-        * exists o, None, [sent_frame (x_role x) w msg]. splits; auto.
-          right. exists msg, (sent_frame (x_role x) w msg). splits; auto.
-    - intros H. inj3 H. exists (c_out (x_codec x)), None, []. rewrite <- Ea. splits; eauto using wext_refl, slot_refl.
-      apply upd_id. }
+        * exists o, None. eexists. exists [sent_frame (x_role x) w msg]. splits.
+          -- reflexivity.
+          -- exact Hw.
+          -- right. exists msg, (sent_frame (x_role x) w msg). splits; auto.
+          -- right. reflexivity.
+    - intros H. inj3 H. exists (c_out (x_codec x)), None, (x_unflushed x), []. rewrite <- Ea.
+      splits; eauto using wext_refl, slot_refl. apply upd_id. }
   destruct (write_add x w) as [[r1 x1] w1] eqn:EA.
-  destruct (HA _ _ _ eq_refl) as [o [a [nf [-> [Hw [Hs Hr]]]]]]. clear HA.
+  destruct (HA _ _ _ eq_refl) as [o [a [u [nf [-> [Hw [Hs Hr]]]]]]]. clear HA.
   destruct Hr as [[b ->]| ->].
-  2:{ intros H. inj3 H. exists o, a, nf. cbn [x_state upd err_of]. splits; auto. right. left. auto. }
+  2:{ intros H. inj3 H. exists o, a, u, nf. cbn [x_state upd err_of]. splits; auto. right. left. auto. }
   unfold write_tail. cbn [x_role x_state x_additional upd].
   destruct (role_eqb (x_role x) Server && closing_done (x_state x) &&
             match a with None => true | Some _ => false end) eqn:ET.
   - apply andb_prop in ET. destruct ET as [ET Ea]. apply andb_prop in ET. destruct ET as [Er Ec].
     apply role_eqb_server in Er. destruct a as [?|]; [discriminate Ea|].
-    destruct (write_out_buffer (x_codec (upd x o (x_state x) None (x_unflushed x))) w1) as [[rw c'] w2] eqn:EO.
+    destruct (write_out_buffer (x_codec (upd x o (x_state x) None u)) w1) as [[rw c'] w2] eqn:EO.
     apply wob_soft in EO; [|eapply wext_soft; eassumption]. destruct EO as [Hc [Hw2 Hr2]].
     pose proof (wext_trans _ _ _ _ _ Hw Hw2) as Hw02. rewrite app_nil_r in Hw02.
     destruct Hr2 as [[-> Ho]|[-> Ho]]; intros H; inj3 H.
-    + exists [], None, nf. cbn [x_state set_state set_codec upd err_of]. splits; auto.
+    + exists [], None, u, nf. cbn [x_state set_state set_codec upd err_of]. splits; auto.
       * rewrite Hc, Ho. reflexivity.
       * right. right. splits; auto.
-    + exists (c_out c'), None, nf. cbn [x_state set_state set_codec upd err_of]. splits; auto.
+    + exists (c_out c'), None, u, nf. cbn [x_state set_state set_codec upd err_of]. splits; auto.
       * rewrite Hc. reflexivity.
       * right. left. auto.
-  - intros H. inj3 H. exists o, a, nf. cbn [x_state upd err_of]. splits; auto. left. auto.
+  - intros H. inj3 H. exists o, a, u, nf. cbn [x_state upd err_of]. splits; auto. left. auto.
 Qed.
 
 (* flush: additionally, Ok means the out_buffer is empty *)
@@ -299,18 +305,18 @@ Proof.
   intros HS HU. unfold flush.
   destruct (write_ x None w) as [[r0 x0] w0] eqn:EW.
   apply write_none_soft in EW; auto.
-  destruct EW as [o [a [nf [Hx0 [Hw [Hs Hr]]]]]].
+  destruct EW as [o [a [u0 [nf [Hx0 [Hw [Hs Hr]]]]]]].
   destruct r0 as [b|e|p|]; cbn [err_of] in Hr.
   - assert (Hst : x_state x0 = x_state x).
     { destruct Hr as [[_ E]|[[X _]|[X _]]]; [exact E|discriminate X|discriminate X]. }
     rewrite Hst in Hx0. subst x0.
-    destruct (write_out_buffer (x_codec (upd x o (x_state x) a (x_unflushed x))) w0) as [[r1 c1] w1] eqn:EO.
+    destruct (write_out_buffer (x_codec (upd x o (x_state x) a u0)) w0) as [[r1 c1] w1] eqn:EO.
     apply wob_soft in EO; [|eapply wext_soft; eassumption]. destruct EO as [Hc [Hw1 Hr1]].
     pose proof (wext_trans _ _ _ _ _ Hw Hw1) as Hw01. rewrite app_nil_r in Hw01.
     remember (c_out c1) as o1 eqn:Eo1. clear Eo1. subst c1.
-    change (set_codec (upd x o (x_state x) a (x_unflushed x))
-              (set_out (x_codec (upd x o (x_state x) a (x_unflushed x))) o1))
-      with (upd x o1 (x_state x) a (x_unflushed x)).
+    change (set_codec (upd x o (x_state x) a u0)
+              (set_out (x_codec (upd x o (x_state x) a u0)) o1))
+      with (upd x o1 (x_state x) a u0).
     destruct Hr1 as [[-> Ho]|[-> Ho]].
     + destruct (w_flush w1) as [r2 w2] eqn:EF.
       apply w_flush_soft in EF; [|eapply wext_soft; eassumption]. destruct EF as [Hw2 Hr2].
@@ -318,13 +324,13 @@ Proof.
       destruct Hr2 as [-> | ->]; intros H; inj3 H.
       * exists [], a, false, nf. rewrite Ho. cbn [set_unflushed x_state upd]. splits; auto.
         left. auto.
-      * exists o1, a, (x_unflushed x), nf. cbn [x_state upd]. splits; auto.
+      * exists o1, a, u0, nf. cbn [x_state upd]. splits; auto.
         -- right. left. auto.
         -- intros X. discriminate X.
-    + intros H. inj3 H. exists o1, a, (x_unflushed x), nf. cbn [x_state upd]. splits; auto.
+    + intros H. inj3 H. exists o1, a, u0, nf. cbn [x_state upd]. splits; auto.
       * right. left. auto.
       * intros X. discriminate X.
-  - intros H. inj3 H. exists o, a, (x_unflushed x), nf. splits; auto.
+  - intros H. inj3 H. exists o, a, u0, nf. splits; auto.
     intros X. discriminate X.
   - destruct Hr as [[X _]|[[X _]|[X _]]]; discriminate X.
   - destruct Hr as [[X _]|[[X _]|[X _]]]; discriminate X.
@@ -382,7 +388,7 @@ Proof.
     destruct (write_ (upd x o0 Active (x_additional x) (x_unflushed x)) None w0) as [[r1 x1] w1] eqn:EW.
     apply write_none_soft in EW; [|eapply wext_soft; eassumption|exact HU].
     cbn [x_role x_state x_additional x_unflushed upd] in EW.
-    destruct EW as [o [a [nf [Hx1 [Hw1 [Hs Hr]]]]]].
+    destruct EW as [o [a [u1 [nf [Hx1 [Hw1 [Hs Hr]]]]]]].
     pose proof (wext_trans _ _ _ _ _ Hw Hw1) as Hw01. cbn [app] in Hw01.
     assert (Hst : x_state x1 = Active /\ ((exists b, r1 = ROk b) \/ r1 = RErr wb)).
     { destruct Hr as [[Hr E]|[[Hr E]|[_ [_ [X _]]]]]; [| |discriminate X]; split; auto.
@@ -403,9 +409,9 @@ Proof.
         -- exact (wext_trans _ _ _ _ _ Hw01 Hw2).
         -- right. exists (sent_frame (x_role x) w f), (nf ++ nf2). splits; auto.
            eapply slot_trans; eassumption.
-      * intros H. inj3 H. exists o, a, (x_unflushed x), (sent_frame (x_role x) w f :: nf). splits; auto.
+      * intros H. inj3 H. exists o, a, u1, (sent_frame (x_role x) w f :: nf). splits; auto.
         right. exists (sent_frame (x_role x) w f), nf. splits; auto.
-    + intros H. inj3 H. exists o, a, (x_unflushed x), (sent_frame (x_role x) w f :: nf). splits; auto.
+    + intros H. inj3 H. exists o, a, u1, (sent_frame (x_role x) w f :: nf). splits; auto.
       right. exists (sent_frame (x_role x) w f), nf. splits; auto.
 Qed.
 
@@ -421,17 +427,17 @@ Proof.
   2:{ unfold add_unmasked. rewrite set_additional_add, set_additional_role. unfold sa.
       unfold add_unmasked in HU. destruct (x_additional x) as [g|]; [|intros _; reflexivity].
       destruct (opcode_eqb _ _); [intros _; reflexivity|exact HU]. }
-  rewrite set_additional_add, set_additional_role, set_additional_state, x_unflushed_set_additional in EW.
-  destruct EW as [o [a [nf [Hx0 [Hw [Hs Hr]]]]]]. rewrite Es in Hr.
+  rewrite set_additional_add, set_additional_role, set_additional_state in EW.
+  destruct EW as [o [a [u1 [nf [Hx0 [Hw [Hs Hr]]]]]]]. rewrite Es in Hr.
   assert (Hst : x_state x0 = Active /\ ((exists b, r0 = ROk b) \/ r0 = RErr wb)).
   { destruct Hr as [[Hr E]|[[Hr E]|[_ [_ [X _]]]]]; [| |discriminate X]; split; auto.
     - destruct r0; try discriminate Hr. left. eauto.
     - destruct r0; try discriminate Hr. right. cbn in Hr. injection Hr as ->. reflexivity. }
   destruct Hst as [Hst Hr0]. rewrite Hst in Hx0.
-  assert (Hx0' : x0 = upd x o Active a (x_unflushed x)).
+  assert (Hx0' : x0 = upd x o Active a u1).
   { rewrite Hx0. unfold upd. rewrite x_role_set_additional, x_codec_set_additional, x_cfg_set_additional.
     f_equal. unfold set_additional. repeat dm_goal; reflexivity. }
-  destruct Hr0 as [[b ->]| ->]; intros H; inj3 H; exists o, a, (x_unflushed x), nf; splits; auto.
+  destruct Hr0 as [[b ->]| ->]; intros H; inj3 H; exists o, a, u1, nf; splits; auto.
 Qed.
 
 (* ------------------------------------------------------------------------------------------ *)
@@ -671,7 +677,8 @@ Inductive rmf_out (x : ctx) (w : world) (fut : bytes) (rem : list frame)
     hf_out (x_state x) (x_additional x) f r (x_state x') (x_additional x') ->
     rmf_out x w fut rem r x' w'
 | RM_block x' w' :
-    w_rds w' = [] -> ~ In RdEof (w_rds w) -> codec_at (x_codec x') fut rem -> wr_same x x' ->
+    w_rds w' = [] -> ~ In RdEof (w_rds w) -> codec_at (x_codec x') fut rem -> (rem = [] \/ fut <> []) ->
+    wr_same x x' ->
     x_state x' = x_state x -> x_additional x' = x_additional x ->
     rmf_out x w fut rem (RErr wb) x' w'
 | RM_eof x' w' :
@@ -702,7 +709,7 @@ Proof.
   { intros s. unfold wr_same. cbn [set_state set_codec x_role x_cfg x_incomplete x_unflushed x_codec].
     splits; auto. }
   remember (w_rds w1) as rds1 eqn:Erds.
-  destruct Hout as [f rem' c2 rds2 p Hrem Hp Hg2 He2 Hat2|c2 Hn Hat2|c2 Hi Hrem Hat2].
+  destruct Hout as [f rem' c2 rds2 p Hrem Hp Hg2 He2 Hat2|c2 Hn Hat2 Hne2|c2 Hi Hrem Hat2].
   - rewrite ccr_soft by discriminate. cbv zeta. intros H.
     assert (Hcan : can_read (x_state x) = true) by (apply Hcr; rewrite Hrem; discriminate).
     subst rem. inversion Hok as [|? ? Hf Hok']; subst.
@@ -807,6 +814,63 @@ Qed.
 Lemma ctl_frames_app r a b : ctl_frames r a -> ctl_frames r b -> ctl_frames r (a ++ b).
 Proof. intros A B. apply Forall_app. split; assumption. Qed.
 
+(* ---- an accepting transport (the fair actions of Pair.v): flush and the pre-step of read are the
+   pure functions of CodecReadP ---- *)
+Definition fairw (w : world) : Prop := wgood u64_max 2 1 w.
+
+Lemma read_pre_pre_step x w : read_pre x w = pre_step x w.
+Proof. reflexivity. Qed.
+
+Lemma add_ok_frame_len r a k g : add_ok r a -> a = Some g -> frame_len (mask_for r k g) <= 139.
+Proof.
+  intros Ha ->. destruct Ha as [Ho [_ Hp]]. unfold frame_len.
+  assert (Hpl : f_payload (mask_for r k g) = f_payload g) by (destruct r; reflexivity).
+  rewrite Hpl. pose proof (header_len_bounds (f_hdr (mask_for r k g)) (blen (f_payload g))) as Hb.
+  destruct Ho as [_ [_ [_ [_ [_ Hop]]]]]. unfold opc in Hp.
+  destruct Hp as [Hp|Hp]; rewrite Hp in Hop; lia.
+Qed.
+
+Lemma flush_pure_facts role x k :
+  EI role x ->
+  c_out (x_codec (snd (flush_pure x k))) = [] /\
+  (c_out (x_codec x) = [] ->
+   x_additional (snd (flush_pure x k)) = None /\
+   (role = Server -> closing_done (x_state x) = true -> fst (flush_pure x k) = RErr EConnectionClosed)).
+Proof.
+  intros HEI. pose proof (ei_role _ _ HEI) as Hr. pose proof (ei_max _ _ HEI) as Hm.
+  pose proof (ei_add _ _ HEI) as Ha.
+  unfold flush_pure. cbv zeta. destruct (x_additional x) as [msg|] eqn:Ea.
+  - destruct (c_max_out (x_codec x) <? frame_len (mask_for (x_role x) k msg) + blen (c_out (x_codec x))) eqn:Ef.
+    + split; [reflexivity|]. intros Ho. exfalso. rewrite Ho, Hm in Ef.
+      pose proof (add_ok_frame_len role _ k msg Ha eq_refl) as Hl. rewrite Hr in Ef.
+      unfold blen in Ef. cbn [length] in Ef. unfold u64_max in Ef. lia.
+    + destruct (role_eqb (x_role x) Server && closing_done (x_state x)) eqn:Ec.
+      * split; [reflexivity|]. intros _. split; [reflexivity|]. reflexivity.
+      * split; [reflexivity|]. intros _. split; [reflexivity|].
+        intros E Hc. rewrite Hr, E, Hc in Ec. discriminate Ec.
+  - destruct (role_eqb (x_role x) Server && closing_done (x_state x)) eqn:Ec.
+    + split; [reflexivity|]. intros _. split; [exact Ea|reflexivity].
+    + split; [reflexivity|]. intros _. split; [exact Ea|].
+      intros E Hc. rewrite Hr, E, Hc in Ec. discriminate Ec.
+Qed.
+
+Lemma pre_pure_facts role x k :
+  EI role x -> c_out (x_codec x) = [] -> x_state x <> Terminated ->
+  c_out (x_codec (snd (pre_pure x k))) = [] /\ x_additional (snd (pre_pure x k)) = None /\
+  (role = Server -> closing_done (x_state x) = true -> fst (pre_pure x k) = RErr EConnectionClosed).
+Proof.
+  intros HEI Ho Hnt. destruct (flush_pure_facts role x k HEI) as [F1 F2]. destruct (F2 Ho) as [F3 F4].
+  unfold pre_pure.
+  destruct ((match x_additional x with Some _ => true | None => false end) || x_unflushed x) eqn:E1.
+  - splits; auto.
+  - apply orb_false_elim in E1. destruct E1 as [Ea _].
+    destruct (x_additional x) as [?|] eqn:Eadd; [discriminate Ea|].
+    destruct (role_eqb (x_role x) Server && negb (can_read (x_state x))) eqn:E2.
+    + splits; auto.
+    + cbn [fst snd]. splits; auto. intros E Hc. rewrite (ei_role _ _ HEI), E in E2. cbn in E2.
+      destruct (x_state x); try discriminate Hc; discriminate E2.
+Qed.
+
 (* results *)
 Definition dres (r : op_result) : list message :=
   match r with ResMsg (ROk m) => dmsg m | _ => [] end.
@@ -831,6 +895,16 @@ Definition res_total (r : op_result) : Prop :=
   (forall s, r <> ResMsg (RPanic s) /\ r <> ResUnit (RPanic s)) /\
   r <> ResMsg ROutOfFuel /\ r <> ResUnit ROutOfFuel.
 
+Definition bsome (a : option frame) : nat := match a with Some _ => 1 | None => 0 end.
+
+Lemma slot_count r a0 a nf : slot r a0 a nf -> (length nf + bsome a <= bsome a0)%nat.
+Proof.
+  intros [[-> ->]|[f [f1 [-> [_ [_ [[-> ->]|[-> ->]]]]]]]]; cbn; lia.
+Qed.
+
+Lemma bsome_sa a g : (bsome (sa a g) <= 1)%nat.
+Proof. unfold sa. destruct a as [h|]; [destruct (opcode_eqb _ _)|]; cbn; lia. Qed.
+
 Record ostep (role : role) (x : ctx) (o : op) (w : world) (fut : bytes) (rem : list frame)
              (res : op_result) (x' : ctx) (w' : world) (nf : list frame) (j : nat) : Prop := mkOstep {
   os_j : (j <= 1)%nat /\ (j <= length rem)%nat;
@@ -853,7 +927,30 @@ Record ostep (role : role) (x : ctx) (o : op) (w : world) (fut : bytes) (rem : l
   os_idle : x_additional x = None -> (o = OpFlush \/ x_state x = Terminated) ->
             nf = [] /\ x_additional x' = None;
   os_ok : res = ResUnit (ROk tt) -> (o = OpFlush \/ exists c, o = OpClose c) -> c_out (x_codec x') = [];
-  os_tkeep : x_state x = Terminated -> x_state x' = Terminated }.
+  os_tkeep : x_state x = Terminated -> x_state x' = Terminated;
+  (* a read answers a message (one frame consumed), WouldBlock, ConnectionClosed or AlreadyClosed *)
+  os_read : o = OpRead ->
+            (exists m, res = ResMsg (ROk m) /\ j = 1%nat) \/
+            (j = 0%nat /\ (res = ResMsg (RErr wb) \/ res = ResMsg (RErr EConnectionClosed) \/
+                           (res = ResMsg (RErr EAlreadyClosed) /\ x_state x = Terminated)));
+  (* WouldBlock: the server was waiting to push its last bytes out, or the transport read blocked
+     with nothing lost and the next frame incomplete *)
+  os_block : res = ResMsg (RErr wb) ->
+             x_state x' = x_state x /\
+             ((role = Server /\ closing_done (x_state x) = true) \/
+              (w_rds w' = [] /\ ~ In RdEof (w_rds w) /\ (rem = [] \/ fut <> [])));
+  (* flush and read queue at most the parked frame; read parks at most one reply per frame consumed *)
+  os_count : o = OpRead \/ o = OpFlush ->
+             (length nf + bsome (x_additional x') <= bsome (x_additional x) + j)%nat;
+  (* over an accepting transport (the fair actions): everything pending goes out *)
+  os_fair_flush : fairw w -> o = OpFlush ->
+                  c_out (x_codec x') = [] /\
+                  (c_out (x_codec x) = [] ->
+                   x_additional x' = None /\
+                   (role = Server -> closing_done (x_state x) = true -> is_cc res = true));
+  os_fair_read : fairw w -> o = OpRead -> c_out (x_codec x) = [] -> x_state x <> Terminated ->
+                 c_out (x_codec x') = [] /\ (j = 0%nat -> x_additional x' = None) /\
+                 (role = Server -> closing_done (x_state x) = true -> is_cc res = true) }.
 
 Section OpStep.
 Variables (role : role) (x : ctx) (w : world) (fut : bytes) (rem : list frame).
@@ -879,15 +976,27 @@ Lemma ostep_write_side o res x' w' nf o' s' a' u' :
   (x_additional x = None -> (o = OpFlush \/ x_state x = Terminated) -> nf = [] /\ a' = None) ->
   (res = ResUnit (ROk tt) -> (o = OpFlush \/ exists c, o = OpClose c) -> o' = []) ->
   (x_state x = Terminated -> s' = Terminated) ->
+  (o = OpRead -> res = ResMsg (RErr wb) \/ res = ResMsg (RErr EConnectionClosed) \/
+                 (res = ResMsg (RErr EAlreadyClosed) /\ x_state x = Terminated)) ->
+  (res = ResMsg (RErr wb) -> s' = x_state x /\ role = Server /\ closing_done (x_state x) = true) ->
+  (o = OpRead \/ o = OpFlush -> (length nf + bsome a' <= bsome (x_additional x))%nat) ->
+  (fairw w -> o = OpFlush ->
+   o' = [] /\ (c_out (x_codec x) = [] ->
+               a' = None /\ (role = Server -> closing_done (x_state x) = true -> is_cc res = true))) ->
+  (fairw w -> o = OpRead -> c_out (x_codec x) = [] -> x_state x <> Terminated ->
+   o' = [] /\ a' = None /\ (role = Server -> closing_done (x_state x) = true -> is_cc res = true)) ->
   ostep role x o w fut rem res x' w' nf 0.
 Proof.
-  intros -> [Hlog [Hrds [Hwr Hfl]]] Hnf Ha Hcl Hd Hacc Hgc Hcc Hterm Hidle Hok Htk.
+  intros -> [Hlog [Hrds [Hwr Hfl]]] Hnf Ha Hcl Hd Hacc Hgc Hcc Hterm Hidle Hok Htk Hrd Hbl Hcnt Hff Hfr.
   constructor; cbn [upd x_codec x_state x_additional x_role x_cfg x_incomplete c_out set_out firstn skipn map concat existsb]; auto.
   - split; [lia|lia].
   - rewrite Hrds. splits; auto. exists []. reflexivity.
   - rewrite Hrds. apply codec_at_set_out. exact Hat.
   - eapply wext_soft; [|exact HS]. unfold wext. splits; eauto.
   - intros Hc. destruct (Hcc Hc) as [A [B [C D]]]. splits; auto. intros E. rewrite E in D. discriminate D.
+  - intros Hr. destruct (Hbl Hr) as [A [B C]]. split; [exact A|left; auto].
+  - intros Ho. specialize (Hcnt Ho). lia.
+  - intros Hf Ho Hc Hnt. destruct (Hfr Hf Ho Hc Hnt) as [A [B C]]. splits; auto.
 Qed.
 
 End OpStep.
@@ -926,9 +1035,12 @@ Lemma ostep_flush_like o r x' w' (s0 : ws_state) (a0 : option frame) oo a u nf :
   (s0 = x_state x /\ a0 = x_additional x) \/ (x_state x = Active /\ s0 = ClosedByUs /\ o <> OpFlush) ->
   x' = upd x oo (x_state x') a u -> wext w w' nf -> slot role a0 a nf ->
   wres role s0 r (x_state x') a oo -> (r = ROk tt -> oo = [] /\ u = false) ->
+  (fairw w -> o = OpFlush ->
+   oo = [] /\ (c_out (x_codec x) = [] ->
+               a = None /\ (role = Server -> closing_done (x_state x) = true -> is_cc (ResUnit r) = true))) ->
   ostep role x o w fut rem (ResUnit r) x' w' nf 0.
 Proof.
-  intros Ho Ha0 Hs0 Hx Hw Hs Hr Hok.
+  intros Ho Ha0 Hs0 Hx Hw Hs Hr Hok Hff.
   destruct (slot_ok _ _ _ _ Ha0 Hs) as [Ha Hctl].
   destruct (wres_cases _ _ _ _ _ _ Hr) as [Hr1 [Hr2 Hr3]].
   eapply ostep_write_side with (o' := oo) (s' := x_state x') (a' := a) (u' := u); auto.
@@ -953,14 +1065,26 @@ Proof.
     + rewrite Hr3 by (rewrite X; discriminate). destruct Hs0 as [[-> _]|[E _]]; congruence.
     + rewrite Hr3 by (rewrite X; discriminate). destruct Hs0 as [[-> _]|[E _]]; congruence.
     + apply (Hr2 X).
+  - intros X. destruct Ho as [->|[[c ->]|[c ->]]]; discriminate X.
+  - intros X. discriminate X.
+  - intros [X|X]; [destruct Ho as [->|[[c ->]|[c ->]]]; discriminate X|].
+    destruct Hs0 as [[_ ->]|[_ [_ Hn]]]; [apply slot_count in Hs; exact Hs|contradiction].
+  - intros _ X. destruct Ho as [->|[[c ->]|[c ->]]]; discriminate X.
 Qed.
 
 Lemma ostep_flush r x' w' :
   flush x w = (r, x', w') -> exists nf, ostep role x OpFlush w fut rem (ResUnit r) x' w' nf 0.
 Proof.
-  intros H. apply flush_soft in H; auto. rewrite Hrole in H.
+  intros H. pose proof H as H0. apply flush_soft in H; auto. rewrite Hrole in H.
   destruct H as [o [a [u [nf [Hx [Hw [Hs [Hr Hok]]]]]]]]. exists nf.
   eapply ostep_flush_like; eauto.
+  intros Hf _.
+  destruct (flush_acc u64_max x w (ei_max _ _ HEI) (ei_bound _ _ HEI) Hf) as [w2 [E2 _]].
+  rewrite E2 in H0. injection H0 as Er Ex _.
+  destruct (flush_pure_facts role x (next_key w) HEI) as [F1 F2].
+  rewrite Ex, Hx in F1. cbn [upd x_codec c_out set_out] in F1. split; [exact F1|].
+  intros Hc. destruct (F2 Hc) as [F3 F4]. rewrite Ex, Hx in F3. cbn [upd x_additional] in F3.
+  split; [exact F3|]. intros E Hcd. rewrite <- Er, (F4 E Hcd). reflexivity.
 Qed.
 
 Lemma ostep_close_gen o c r x' w' :
@@ -976,6 +1100,7 @@ Proof.
   - destruct Ho as [-> | ->]; eauto.
   - destruct (x_state x); try exact Hadd. apply reply_add_ok, close_ok_reply, Hc.
   - destruct (x_state x); auto. right. splits; auto. destruct Ho as [-> | ->]; discriminate.
+  - intros _ X. destruct Ho as [-> | ->]; discriminate X.
 Qed.
 End OpStep2.
 
@@ -994,9 +1119,11 @@ Let Hadd := ei_add _ _ HEI.
 Lemma ostep_noop o res :
   res_clean o res /\ res_total res -> dres res = [] -> accepted o res = [] -> gotc res = false -> is_cc res = false ->
   (forall c, o <> OpClose c) -> o <> OpFlush ->
+  (o = OpRead -> res = ResMsg (RErr EAlreadyClosed) /\ x_state x = Terminated) ->
+  res <> ResMsg (RErr wb) ->
   ostep role x o w fut rem res x w [] 0.
 Proof.
-  intros Hcl Hd Hacc Hgc Hcc Hnc Hnf.
+  intros Hcl Hd Hacc Hgc Hcc Hnc Hnf Hrd Hnwb.
   eapply ostep_write_side with (o' := c_out (x_codec x)) (s' := x_state x) (a' := x_additional x)
                                (u' := x_unflushed x); auto;
   try match goal with
@@ -1005,6 +1132,11 @@ Proof.
   | |- is_cc _ = true -> _ => rewrite Hcc; discriminate
   | |- x_additional x = None -> _ => intros Hn [X|_]; [contradiction|auto]
   | |- _ = ResUnit (ROk tt) -> _ => intros _ [X|[c X]]; [contradiction|exfalso; exact (Hnc c X)]
+  | |- o = OpRead -> _ => intros X; right; right; exact (Hrd X)
+  | |- res = ResMsg (RErr wb) -> _ => intros X; contradiction
+  | |- o = OpRead \/ o = OpFlush -> _ => intros _; cbn; lia
+  | |- fairw w -> o = OpFlush -> _ => intros _ X; contradiction
+  | |- fairw w -> o = OpRead -> _ => intros _ X _ Hnt; destruct (Hrd X) as [_ Y]; contradiction
   end.
 Qed.
 
@@ -1031,6 +1163,10 @@ Proof.
     + intros X. left. congruence.
     + intros X. discriminate X.
     + intros X. congruence.
+    + intros X. discriminate X.
+    + intros X. discriminate X.
+    + intros _ X. discriminate X.
+    + intros _ X. discriminate X.
   - destruct (slot_ok _ _ _ _ Hadd Hs) as [Ha Hctl].
     destruct (ctl_frames_ok _ _ Hctl) as [Hc1 Hc2]. destruct HW as [HW1 HW2].
     eapply ostep_write_side with (o' := o) (s' := Active) (a' := a) (u' := u); auto.
@@ -1043,6 +1179,11 @@ Proof.
     + intros _ [X|X]; [discriminate X|congruence].
     + intros _ [X|[c X]]; discriminate X.
     + intros X. congruence.
+    + intros X. discriminate X.
+    + intros X. discriminate X.
+    + intros [X|X]; discriminate X.
+    + intros _ X. discriminate X.
+    + intros _ X. discriminate X.
 Qed.
 
 Lemma ostep_write m r x' w' :
@@ -1076,6 +1217,11 @@ Proof.
     + intros _ [X|X]; [discriminate X|congruence].
     + intros _ [X|[c X]]; discriminate X.
     + intros X. congruence.
+    + intros X. discriminate X.
+    + intros X. discriminate X.
+    + intros [X|X]; discriminate X.
+    + intros _ X. discriminate X.
+    + intros _ X. discriminate X.
   - intros H. eapply ostep_close_gen; eauto.
   - contradiction.
 Qed.
@@ -1103,14 +1249,25 @@ Proof.
   pose proof (add_unmasked_EI role x HEI) as HU.
   pose proof (ei_role _ _ HEI) as Hrole. pose proof (ei_add _ _ HEI) as Hadd.
   unfold read. destruct (is_terminated (x_state x)) eqn:Et.
-  { intros H. inj3 H. exists [], 0%nat. apply ostep_noop; auto; try discriminate.
+  { intros H. inj3 H. exists [], 0%nat.
+    assert (Hterm : x_state x = Terminated) by (destruct (x_state x); try discriminate Et; reflexivity).
+    apply ostep_noop; auto; try discriminate.
     split; [intros p [X|X]; discriminate X|].
     split; [intros ?; split; intros X; discriminate X|split; intros X; discriminate X]. }
   assert (Hnt : x_state x <> Terminated) by (intros X; rewrite X in Et; discriminate Et).
   rewrite read_loop_eq.
-  destruct (read_pre x w) as [[r0 x0] w0] eqn:EP.
+  destruct (read_pre x w) as [[r0 x0] w0] eqn:EP. pose proof EP as EP0.
   apply read_pre_soft in EP; auto. rewrite Hrole in EP.
   destruct EP as [o [a [u [nf [Hx0 [Hw [Hs [Hr Hwb]]]]]]]].
+  assert (HF : fairw w -> c_out (x_codec x) = [] ->
+            o = [] /\ a = None /\
+            (role = Server -> closing_done (x_state x) = true -> r0 = RErr EConnectionClosed)).
+  { intros Hf Hc. rewrite read_pre_pre_step in EP0.
+    destruct (pre_step_acc u64_max x w (ei_max _ _ HEI) (ei_bound _ _ HEI) Hf) as [w2 [E2 _]].
+    rewrite E2 in EP0. injection EP0 as Er Ex _.
+    destruct (pre_pure_facts role x (next_key w) HEI Hc Hnt) as [F1 [F2 F3]].
+    rewrite Ex, Hx0 in F1, F2. cbn [upd x_codec c_out set_out x_additional] in F1, F2.
+    splits; auto. intros E Hcd. rewrite <- Er. exact (F3 E Hcd). }
   destruct (slot_ok _ _ _ _ Hadd Hs) as [Ha Hctl].
   destruct (wres_cases _ _ _ _ _ _ Hr) as [Hr1 [Hr2 Hr3]].
   (* the pre-step ended the call *)
@@ -1138,6 +1295,15 @@ Proof.
         intros Ht; left; rewrite Hr3 in Ht by discriminate; exact Ht
     | |- x_additional x = None -> _ => intros _ [X|X]; [discriminate X|contradiction]
     | |- _ = ResUnit (ROk tt) -> _ => intros X; discriminate X
+    | |- OpRead = OpRead -> _ => intros _; destruct He as [-> | ->]; auto
+    | |- ResMsg (RErr e) = ResMsg (RErr wb) -> _ =>
+        intros X; injection X as ->; rewrite Hr3 by discriminate;
+        destruct (Hwb eq_refl) as [A B]; splits; auto
+    | |- OpRead = OpRead \/ _ -> _ => intros _; apply slot_count in Hs; exact Hs
+    | |- fairw w -> OpRead = OpFlush -> _ => intros _ X; discriminate X
+    | |- fairw w -> OpRead = OpRead -> _ =>
+        intros Hf _ Hc _; destruct (HF Hf Hc) as [A [B C]]; splits; auto;
+        intros E Hcd; specialize (C E Hcd); injection C as ->; reflexivity
     end. }
   destruct r0 as [[]|e|p|]; try (intros H; symmetry in H; apply (Hexit _ eq_refl) in H; eauto; fail);
     try (destruct Hr1 as [X|[X|X]]; discriminate X).
@@ -1159,7 +1325,7 @@ Proof.
     assert (Hsame : forall y, wr_same x0 y ->
               x_role y = x_role x /\ x_cfg y = x_cfg x /\ x_incomplete y = x_incomplete x).
     { intros y [A [B [C _]]]. rewrite A, B, C, Hx0. splits; reflexivity. }
-    destruct Hout as [f rem' p r1 x1 w1 Hrem Hp Hg1 He1 Hat1 Hws Hhf|x1 w1 Hrd Hne Hat1 Hws Hst Had|
+    destruct Hout as [f rem' p r1 x1 w1 Hrem Hp Hg1 He1 Hat1 Hws Hhf|x1 w1 Hrd Hne Hat1 Hstall Hws Hst Had|
                       x1 w1 Hrd Hie Hrem Hat1 Hws Hcd Hst Had].
     + destruct (hf_out_msg _ _ _ _ _ _ Hhf) as [m [-> [Hdm Hmc]]].
       intros H. inj3 H. exists nf, 1%nat. subst rem.
@@ -1171,6 +1337,11 @@ Proof.
       { remember (x_additional x1) as a1. remember (ROk (Some m)) as rr.
         destruct Hhf; try exact Ha; try (apply sa_add_ok; assumption).
         destruct (is_active (x_state x)); [apply sa_add_ok; assumption|exact Ha]. }
+      assert (Hb1 : (bsome (x_additional x1) <= bsome a + 1)%nat).
+      { remember (x_additional x1) as a1. remember (ROk (Some m)) as rr.
+        destruct Hhf; subst; try lia; try (pose proof (bsome_sa a g); lia).
+        destruct (is_active (x_state x)); [pose proof (bsome_sa a (frame_pong (f_payload f)))|]; lia. }
+      pose proof (slot_count _ _ _ _ Hs) as Hcnt.
       constructor; cbn [length firstn skipn map concat existsb dres accepted gotc is_cc]; auto;
       try match goal with
       | |- x_state x = Terminated -> _ => intros X; contradiction
@@ -1190,6 +1361,14 @@ Proof.
       | |- x_state _ = Terminated -> _ => intros X; contradiction
       | |- x_additional x = None -> _ => intros _ [X|X]; [discriminate X|contradiction]
       | |- _ = ResUnit (ROk tt) -> _ => intros X; discriminate X
+      | |- OpRead = OpRead -> _ => intros _; left; eauto
+      | |- _ = ResMsg (RErr wb) -> _ => intros X; discriminate X
+      | |- OpRead = OpRead \/ _ -> _ => intros _; lia
+      | |- fairw w -> OpRead = OpFlush -> _ => intros _ X; discriminate X
+      | |- fairw w -> OpRead = OpRead -> _ =>
+          intros Hf _ Hc _; destruct (HF Hf Hc) as [A [B C]];
+          destruct Hws as [_ [_ [_ [_ [Hco _]]]]]; rewrite Hco, Hx0; cbn [upd x_codec c_out set_out];
+          splits; auto; [intros X; discriminate X|intros E Hcd; specialize (C E Hcd); discriminate C]
       end.
     + intros H. inj3 H. exists nf, 0%nat.
       constructor; cbn [length firstn skipn map concat existsb dres accepted gotc is_cc]; auto;
@@ -1210,6 +1389,18 @@ Proof.
       | |- x_state _ = Terminated -> _ => rewrite Hst, Hx0; cbn [upd x_state]; intros X; left; exact X
       | |- x_additional x = None -> _ => intros _ [X|X]; [discriminate X|contradiction]
       | |- _ = ResUnit (ROk tt) -> _ => intros X; discriminate X
+      | |- OpRead = OpRead -> _ => intros _; right; split; [reflexivity|left; reflexivity]
+      | |- _ = ResMsg (RErr wb) -> _ =>
+          intros _; split; [rewrite Hst, Hx0; reflexivity|
+                            right; split; [exact Hrd|split; [rewrite <- Hrds0; exact Hne|exact Hstall]]]
+      | |- OpRead = OpRead \/ _ -> _ =>
+          intros _; rewrite Had, Hx0; cbn [upd x_additional]; apply slot_count in Hs; lia
+      | |- fairw w -> OpRead = OpFlush -> _ => intros _ X; discriminate X
+      | |- fairw w -> OpRead = OpRead -> _ =>
+          intros Hf _ Hc _; destruct (HF Hf Hc) as [A [B C]];
+          destruct Hws as [_ [_ [_ [_ [Hco _]]]]]; rewrite Hco, Had, Hx0;
+          cbn [upd x_codec c_out set_out x_additional];
+          splits; auto; intros E Hcd; specialize (C E Hcd); discriminate C
       end.
     + intros H. inj3 H. exists nf, 0%nat. rewrite <- Hrds0 in Heof. destruct (Heof Hie) as [Hcl [Hfut _]].
       subst rem fut. rewrite Hx0 in Hcd. cbn [upd x_state] in Hcd.
@@ -1232,6 +1423,16 @@ Proof.
            intros _; split; [rewrite <- Hrds0; exact Hie|reflexivity]]
       | |- x_additional x = None -> _ => intros _ [X|X]; [discriminate X|contradiction]
       | |- _ = ResUnit (ROk tt) -> _ => intros X; discriminate X
+      | |- OpRead = OpRead -> _ => intros _; right; split; [reflexivity|right; left; reflexivity]
+      | |- _ = ResMsg (RErr wb) -> _ => intros X; discriminate X
+      | |- OpRead = OpRead \/ _ -> _ =>
+          intros _; rewrite Had, Hx0; cbn [upd x_additional]; apply slot_count in Hs; lia
+      | |- fairw w -> OpRead = OpFlush -> _ => intros _ X; discriminate X
+      | |- fairw w -> OpRead = OpRead -> _ =>
+          intros Hf _ Hc _; destruct (HF Hf Hc) as [A [B C]];
+          destruct Hws as [_ [_ [_ [_ [Hco _]]]]]; rewrite Hco, Had, Hx0;
+          cbn [upd x_codec c_out set_out x_additional];
+          splits; auto; intros E Hcd; specialize (C E Hcd); discriminate C
       end.
   - exact (ei_inc _ _ HEI).
   - exact (ei_mm _ _ HEI).
@@ -1275,7 +1476,8 @@ Theorem op_step role x o w fut rem res x' w' :
     (forall q, QP (x_state x) (x_additional x) q -> QP (x_state x') (x_additional x') (q ++ nf)) /\
     (forall cr, crs (x_state x) cr -> crs (x_state x') (cr || gotc res)) /\
     (x_state x <> Active -> forall q, Pend (x_additional x) q -> Pend (x_additional x') (q ++ nf)) /\
-    (gotc res = true -> closing_done (x_state x') = true).
+    (gotc res = true -> closing_done (x_state x') = true) /\
+    (x_state x <> Active -> x_state x' <> Active).
 Proof.
   intros HEI HS Hg Hat Hok Hmask Heof Hcr Hu H.
   assert (Hos : exists nf j, ostep role x o w fut rem res x' w' nf j).
@@ -1315,4 +1517,7 @@ Proof.
     assert (evs2 = evs) by (rewrite El in El2; apply app_inv_head in El2; auto). subst evs2.
     rewrite <- Hq'. apply HPend; assumption.
   - intros Hgc. rewrite <- gotc_got_close in Hgc. apply (op_got_close_state _ _ _ _ _ _ HP Hgc).
+  - intros Hna. destruct (op_mono _ _ _ _ _ _ HP) as [Hm _].
+    assert (Ha : is_active (x_state x) = false) by (destruct (x_state x); try reflexivity; contradiction).
+    apply Hm in Ha. intros E. rewrite E in Ha. discriminate Ha.
 Qed.
